@@ -395,6 +395,18 @@ func (fr *Frame) contractCall(st *State, c *ast.CallExpr, fn *types.Func, ct *Co
 				ks = append(ks, k)
 			}
 			sort.Strings(ks)
+			// a callee that takes a declared monitor has released it by the time it returns: what it
+			// told the caller about the guarded state is stale once the caller acquires the monitor
+			var mks []string
+			for k := range sm.heapKeys {
+				if strings.HasPrefix(k, "mutex:") && x.eng.monitors[k] != nil {
+					mks = append(mks, k)
+				}
+			}
+			sort.Strings(mks)
+			for _, k := range mks {
+				st.ghost["mrel:"+k] = Val{T: "true", S: "Bool"}
+			}
 			for _, k := range ks {
 				if k == ct.Counts {
 					continue
@@ -709,6 +721,7 @@ func (fr *Frame) builtin(st *State, c *ast.CallExpr, name string) []Val {
 	case "delete":
 		m := fr.expr(st, c.Args[0])
 		k := fr.expr(st, c.Args[1])
+		fr.guardedMapAccess(st, c, m, "write")
 		x.mapDelete(st, m, k)
 		return nil
 	case "copy":
